@@ -69,6 +69,7 @@ MellinVerdict(r) ==
   IF r.cell \notin C35Cells THEN "PLAN:unplanned-cell"
   ELSE IF Len(r.pts) = 0 THEN "TRACE:no-inversion-points"
   ELSE IF \E k \in 1..Len(r.pts) : C35PointVerdict(r.pts[k]) = "fail" THEN "C35:inverse-at-nodes"
+  ELSE IF r.interm > C35InteriorGross THEN "C35:interior-point-grossly-wrong-or-not-finite"
   ELSE IF \A k \in 1..Len(r.pts) : C35PointVerdict(r.pts[k]) = "unresolved" THEN "UNRESOLVED"
   ELSE "ok"
 End35Verdict ==
